@@ -2274,7 +2274,11 @@ def make_builtins(E):
                     if c:
                         cur = x
                 else:
-                    if _is_real(x) or _is_real(cur):
+                    if isinstance(x, SObj) or isinstance(cur, SObj):
+                        # objects ordered by a modelled comparison (timedelta, datetime): decide by branching
+                        if E.decide(c, 'minmax'):
+                            cur = x
+                    elif _is_real(x) or _is_real(cur):
                         cur = mk_real(z3.If(c.e, R(x), R(cur)))
                     else:
                         cur = mk_int(z3.If(c.e, I(x), I(cur)))
